@@ -18,7 +18,7 @@ RULE = ("Generated expression trees (recursive Hypothesis strategy, depth <= 6) 
         "reflected operator (scalar - obs or scalar * obs) and a subtraction.")
 ASSUMPTIONS = ["rtol 1e-12 (+1e-12 absolute); float scalars are 0 or >= 1e-3 in magnitude (no denormal-range products)", "numpy integer scalars are not Python ints and are not generated (the library documents int/float)"]
 
-LEAVES = ["SigmaX", "SigmaY", "SigmaZ", "SigmaZabs", "NI1", "NI2p", "SWAP0"]
+LEAVES = ["SigmaX", "SigmaY", "SigmaZ", "SigmaZabs", "SigmaXabs", "NI1", "NI2p", "SWAP0", "SWAP01"]   # several leaves share a name but differ in behaviour
 
 num = st.one_of(
     st.integers(-4, 4).map(lambda v: {"num": v, "kind": "int"}),
@@ -77,7 +77,7 @@ def scalar(d):
 def make_leaf(name):
     from qucumber.observables import NeighbourInteraction, SigmaX, SigmaY, SigmaZ, SWAP
     return {"SigmaX": lambda: SigmaX(), "SigmaY": lambda: SigmaY(), "SigmaZ": lambda: SigmaZ(), "SigmaZabs": lambda: SigmaZ(absolute=True),
-            "NI1": lambda: NeighbourInteraction(c=1), "NI2p": lambda: NeighbourInteraction(periodic_bcs=True, c=2), "SWAP0": lambda: SWAP([0])}[name]()
+            "SigmaXabs": lambda: SigmaX(absolute=True), "SWAP01": lambda: SWAP([0, 1]), "NI1": lambda: NeighbourInteraction(c=1), "NI2p": lambda: NeighbourInteraction(periodic_bcs=True, c=2), "SWAP0": lambda: SWAP([0])}[name]()
 
 
 def build(e, made=None):
